@@ -74,7 +74,7 @@ def run(ctx):
     drive(ctx, "BackendSched", "sim7", 7, "num=%d" % (40 if quick else 1500), 8, "TestBackends", {"VERIF_EVERY": "1"}, named)
     for need in ("hundred-streams", "dial-fails", "write-fails", "request-cancelled", "cancel", "fail:429ra", "fail:slow", "batches:0", "batches:3",
                  "variant:datadog", "variant:graphite/tags", "variant:cloudwatch", "variant:otlp/AsGauge"):
-        if named.get(need, 0) == 0:
+        if named.get(need, 0) == 0 and not (ctx.violations or locals().get("fails")):  # no vacuity verdict once something was found
             raise vlib.MachineryError("vacuity: %s never reached" % need)
     ctx.cov["named_situations"] = named
     ctx.cov["rule"] = ("sender: every schedule of 3 stimuli over {request with 0|1|3 buffers, 99 requests, next dial ok|fails, next write "
